@@ -105,7 +105,7 @@ macro_rules! uint_cmp {
 }
 //@ name=c06_uint1_cmp prop=C06,C11,C15 tier=quick profile=k64 funcs="Uint::eq,Uint::lt,Uint::gt,Uint::lte,Uint::cmp,Uint::cmp_vartime,ct_eq,ct_lt,ct_gt,PartialEq,PartialOrd,Ord,is_nonzero,is_zero,is_odd,is_even" bound="Uint<1>, all pairs" free_bits=128
 uint_cmp!(c06_uint1_cmp, 1);
-//@ name=c06_uint2_cmp prop=C06,C11,C15 tier=quick profile=k64 funcs="Uint::eq,Uint::lt,Uint::gt,Uint::lte,Uint::cmp,Uint::cmp_vartime,ct_eq,ct_lt,ct_gt,PartialEq,PartialOrd,Ord,is_nonzero,is_zero,is_odd,is_even" bound="Uint<2>, all pairs" free_bits=256
+//@ name=c06_uint2_cmp prop=C06,C11,C15 tier=quick profile=k64 funcs="Uint::eq,Uint::lt,Uint::gt,Uint::lte,Uint::cmp,Uint::cmp_vartime,ct_eq,ct_lt,ct_gt,PartialEq,PartialOrd,Ord,is_nonzero,is_zero,is_odd,is_even" bound="Uint<2>, all pairs" free_bits=256 core=C15
 uint_cmp!(c06_uint2_cmp, 2);
 //@ name=c06_uint3_cmp prop=C06,C11,C15 tier=quick profile=k64 funcs="Uint::eq,Uint::lt,Uint::gt,Uint::lte,Uint::cmp,Uint::cmp_vartime,ct_eq,ct_lt,ct_gt,PartialEq,PartialOrd,Ord,is_nonzero,is_zero,is_odd,is_even" bound="Uint<3>, all pairs" free_bits=384
 uint_cmp!(c06_uint3_cmp, 3);
@@ -220,7 +220,7 @@ macro_rules! boxed_cmp {
 }
 //@ name=c06_boxed_cmp_2_2 prop=C06,C11,C15 tier=quick profile=k64 funcs="BoxedUint::ct_eq,ct_lt,ct_gt,PartialEq,Ord,PartialOrd,cmp_vartime,is_zero,is_nonzero,is_one,is_odd" bound="BoxedUint 2 limbs vs 2 limbs, all pairs" free_bits=256
 boxed_cmp!(c06_boxed_cmp_2_2, 2, 2);
-//@ name=c06_boxed_cmp_1_3 prop=C06,C11,C15 tier=quick profile=k64 funcs="BoxedUint::ct_eq,ct_lt,ct_gt,PartialEq,Ord,PartialOrd,is_zero,is_one" bound="BoxedUint 1 limb vs 3 limbs (different precision, zero padding), all pairs" free_bits=256
+//@ name=c06_boxed_cmp_1_3 prop=C06,C11,C15 tier=quick profile=k64 funcs="BoxedUint::ct_eq,ct_lt,ct_gt,PartialEq,Ord,PartialOrd,is_zero,is_one" bound="BoxedUint 1 limb vs 3 limbs (different precision, zero padding), all pairs" free_bits=256 core=C15
 boxed_cmp!(c06_boxed_cmp_1_3, 1, 3);
 //@ name=c06_boxed_cmp_3_2 prop=C06,C11,C15 tier=quick profile=k64 funcs="BoxedUint::ct_eq,ct_lt,ct_gt,PartialEq,Ord,PartialOrd,is_zero,is_one" bound="BoxedUint 3 limbs vs 2 limbs (different precision), all pairs" free_bits=320
 boxed_cmp!(c06_boxed_cmp_3_2, 3, 2);
